@@ -767,10 +767,12 @@ class Scores:
             achieved and the EER value itself.
         """
         # We treat the case of perfect separation separately
+        # The midpoint is formed in double precision: scores can be stored in a narrow
+        # integer dtype, in which the sum of two scores overflows.
         if self.pos[0] > self.neg[-1] and self.score_class == BinaryLabel.pos:
-            return (self.pos[0] + self.neg[-1]) / 2, 0.0
+            return (np.float64(self.pos[0]) + np.float64(self.neg[-1])) / 2, 0.0
         if self.pos[-1] < self.neg[0] and self.score_class == BinaryLabel.neg:
-            return (self.pos[-1] + self.neg[0]) / 2, 0.0
+            return (np.float64(self.pos[-1]) + np.float64(self.neg[0])) / 2, 0.0
 
         sign = -np.sign(self.threshold_at_fpr(0.0) - self.threshold_at_fnr(0.0))
 
